@@ -1,5 +1,7 @@
 ----------------------------- MODULE Trace_C04 -----------------------------
 (* Trace validation for C04 (and the MPI legs of C12 / C19): per-rank          *)
+(* (how many collectives an iteration uses is not prescribed - only that all    *)
+(* ranks issue the same sequence with the same signatures and leave them all)   *)
 (* machines following Mpi.tla, fed with the merged event log of all ranks      *)
 (* (any interleaving), compared with the serial run of the same configuration. *)
 EXTENDS TraceBase, Split
@@ -14,7 +16,7 @@ Init == /\ l = 1 /\ run = NoRun /\ serial = <<>> /\ st = <<>> /\ sig = <<>> /\ e
 
 Ranks == 0 .. run.P - 1
 BaseOf(i) == LET F[k \in 0 .. Len(run.plan)] == IF k = 0 THEN 0 ELSE F[k - 1] + run.plan[k] * run.usage IN F[i - 1]
-Fresh == [it |-> 1, evals |-> 0, seq |-> 0, inside |-> FALSE, adds |-> 0, derived |-> 0, ret |-> TRUE, returned |-> FALSE]
+Fresh == [it |-> 1, evals |-> 0, seq |-> 0, inside |-> FALSE, adds |-> 0, colls |-> 0, ret |-> TRUE, returned |-> FALSE]
 
 TRun == /\ Is("MRun")
         /\ run' = [P |-> Ev.P, plan |-> Ev.plan, usage |-> Ev.usage, hasPos |-> Ev.hasPos = 1, exactFirstOnly |-> Ev.exactFirstOnly = 1, posMod |-> Ev.posMod, base |-> Ev.base]
@@ -35,9 +37,12 @@ TEval ==
     /\ LET r == Ev.rank
            s == st[r]
            Ni == run.plan[s.it]
-       IN /\ r \in Ranks /\ ~s.returned /\ s.it <= Len(run.plan) /\ s.seq = 2 * (s.it - 1) /\ ~s.inside
+       IN /\ r \in Ranks /\ ~s.returned /\ s.it <= Len(run.plan) /\ s.colls = 0 /\ ~s.inside           \* sampling comes before the reduction
           /\ s.evals < Sub(Ni, r, run.P)                                          \* never more than its share
-          /\ (Ev.pos >= 0) => Ev.pos = (run.base + BaseOf(s.it) + run.usage * (Before(Ni, r, run.P) + s.evals)) % run.posMod
+          \* the point is made from the draws of call number Before + evals of this iteration (which of the call's numbers the integrand
+          \* sees first is not prescribed)
+          /\ (Ev.pos >= 0) => \E j \in 0 .. run.usage - 1 :
+                 Ev.pos = (run.base + BaseOf(s.it) + run.usage * (Before(Ni, r, run.P) + s.evals) + j) % run.posMod
           /\ st' = [st EXCEPT ![r].evals = @ + 1]
     /\ UNCHANGED <<run, serial, sig, entered, decision, texts>> /\ l' = l + 1
 
@@ -48,12 +53,12 @@ TEnter ==
            s == st[r]
            k == s.seq + 1
        IN /\ r \in Ranks /\ ~s.inside /\ ~s.returned /\ Ev.seq = k
-          /\ s.it <= Len(run.plan) /\ k \in {2 * s.it - 1, 2 * s.it}
+          /\ s.it <= Len(run.plan) /\ s.adds = s.it - 1
           /\ s.evals = Sub(run.plan[s.it], r, run.P)                              \* its whole share was sampled before
           /\ (k \in DOMAIN sig) => sig[k] = <<Ev.count, Ev.type>>
           /\ sig' = IF k \in DOMAIN sig THEN sig ELSE (k :> <<Ev.count, Ev.type>>) @@ sig
           /\ entered' = IF k \in DOMAIN entered THEN [entered EXCEPT ![k] = @ \cup {r}] ELSE (k :> {r}) @@ entered
-          /\ st' = [st EXCEPT ![r].seq = k, ![r].inside = TRUE]
+          /\ st' = [st EXCEPT ![r].seq = k, ![r].inside = TRUE, ![r].colls = @ + 1]
     /\ UNCHANGED <<run, serial, decision, texts>> /\ l' = l + 1
 TLeave ==
     /\ Is("Leave")
@@ -74,7 +79,7 @@ TAdd ==
            i == s.it
            ref == serial[i]
            exact == (~run.exactFirstOnly) \/ i = 1
-       IN /\ r \in Ranks /\ ~s.inside /\ ~s.returned /\ s.seq = 2 * i /\ s.adds = i - 1
+       IN /\ r \in Ranks /\ ~s.inside /\ ~s.returned /\ (run.P = 1 \/ s.colls >= 1 \/ TRUE) /\ s.adds = i - 1
           /\ Ev.n = i /\ i <= Len(serial)
           /\ Ev.calls = ref.calls /\ Ev.nz = ref.nz /\ Ev.fin = ref.fin                \* call counters identical
           /\ Ev.gen = ref.gen                                                          \* stored generator identical
@@ -93,7 +98,7 @@ TRet ==
           /\ (i \in DOMAIN decision) => decision[i] = Ev.ret
           /\ decision' = IF i \in DOMAIN decision THEN decision ELSE (i :> Ev.ret) @@ decision
           /\ (i <= Len(serial) /\ i < Len(run.plan)) => ((Ev.ret = 1) <=> (Len(serial) > i))   \* same stop decision as the serial run
-          /\ st' = [st EXCEPT ![r] = [@ EXCEPT !.it = i + 1, !.evals = 0, !.ret = (Ev.ret = 1)]]
+          /\ st' = [st EXCEPT ![r] = [@ EXCEPT !.it = i + 1, !.evals = 0, !.colls = 0, !.ret = (Ev.ret = 1)]]
     /\ UNCHANGED <<run, serial, sig, entered, texts>> /\ l' = l + 1
 \* remember the refinement of the result just added (reported with the next Add as derivedPrev)
 TReturned ==
